@@ -1,6 +1,6 @@
 CONSTANTS
   NC = 2
-  NL = 1
+  NL = 0
   WRun = {}
   WTerm = {}
   QCap = 4
@@ -12,5 +12,6 @@ CONSTANTS
 INIT GInit
 NEXT GNext
 VIEW GView
+INVARIANTS TypeOK ChainedHistory SwitchNeverFails FnOrder RunOnlyAfterStart StopFnIffStarted CtxCancelledBeforeStopFn StopFnGetsRunError ContextReleased WaitersExact NoDoubleClose FirstErrorWins ListenerOrder NotifierNeverBlocks Quiescent
 PROPERTIES AbsSim
 CHECK_DEADLOCK FALSE
